@@ -40,6 +40,44 @@ def direction_fails(case):
     return None
 
 
+def poisoned_direction_fails(case):
+    """one direction carries non-finite higher-order coefficients (an overflow upstream in that direction only): the other
+    directions are those of the evaluation without it -- a scratch buffer shared between directions would pass them on"""
+    P, D = case['P'], case['D']
+    if P < 2 or D < 2:
+        return None
+    bad = case.get('bad_dir', 0)
+
+    def poison(v):
+        v = np.array(v, dtype=float, copy=True)
+        if v.ndim >= 2 and v.shape[0] == D and v.shape[1] == P and v[1, bad].size:
+            v[1:, bad] = case.get('bad_val', np.inf)
+        return v
+    pc = ops.map_U(case, poison)
+    with np.errstate(all='ignore'):
+        st, full = ops.call(pc)
+    if st != 'ok':
+        return None
+    for p in range(P):
+        if p == bad:
+            continue
+        sub = ops.map_U(case, lambda v: v[:, p:p + 1])
+        sub['P'] = 1
+        with np.errstate(all='ignore'):
+            st2, part = ops.call(sub)
+        if st2 != 'ok':
+            return None
+        for i, (a, b) in enumerate(zip(full, part)):
+            if not isinstance(a, np.ndarray) or a.ndim < 2 or a.shape[1] != P or a.shape[0] != D or b.ndim < 2 or b.shape[1] != 1:
+                continue
+            if not np.all(np.isfinite(b)):
+                continue
+            if not np.all(np.isfinite(a[:, p])) or not close(a[:, p], b[:, 0], tol=1e-9):
+                return ('direction-poisoned-%s: with non-finite higher coefficients in direction %d, output %d of direction %d differs from '
+                        'evaluating direction %d alone' % (case['op'], bad, i, p, p))
+    return None
+
+
 def nontrivial(case):
     if case['P'] < 2:
         return False
@@ -86,6 +124,8 @@ def make_jacobian_case(rng, tier):
 
 
 def replay_case(ctx, case):
+    if case.get('poisoned'):
+        return poisoned_direction_fails(case)
     if case.get('jacdir'):
         return jacobian_direction_fails(case)
     if 'prog' in case:
@@ -115,6 +155,16 @@ def run(ctx):
         f = direction_fails(case)
         if f:
             ctx.report(case, 'failure', f)
+        elif case['D'] >= 2 and i % 2 == 0:
+            pc = dict(case)
+            pc['poisoned'] = True
+            pc['bad_dir'] = ctx.rng.randrange(case['P'] - 1)            # an earlier direction (later ones would see its leftovers)
+            pc['bad_val'] = ctx.rng.choice([float('inf'), float('nan'), float('-inf')])
+            ctx.evaluations += 1
+            ctx.count('poisoned-direction')
+            f = poisoned_direction_fails(pc)
+            if f:
+                ctx.report(pc, 'failure', f)
     # reverse sweep: adjoints of direction p from a P-direction sweep == sweep of direction p alone
     for i in range(120 if ctx.tier == 'quick' else 1500):
         case = revchecks.make_case(ctx.rng, ctx.tier, P=ctx.rng.choice([2, 3]))
@@ -129,7 +179,7 @@ def run(ctx):
             ctx.report(case, 'failure', f)
     # reverse sweep of single operations (every direction has its own base point and, for det/logdet/lu, its own pivots)
     for name in revchecks.reversible_ops(for_truncation=False):
-        for k in range((8 if name in ('det', 'logdet', 'lu', 'inv', 'solve', 'eigh:mixed') else 3) if ctx.tier == 'quick' else 40):
+        for k in range((8 if name in ('det', 'det:pivots', 'logdet', 'lu', 'inv', 'solve', 'eigh:mixed') else 3) if ctx.tier == 'quick' else 40):
             case = ops.gen_case(ctx.rng, ctx.tier, name, P=ctx.rng.choice([2, 3]), D=ctx.rng.randint(1, 4))
             case['seed'] = ctx.rng.randrange(1 << 30)
             case['rev'] = True
